@@ -170,7 +170,7 @@ func CheckDataflow(ref *progen.RefResult, res *Result) []string {
 		return []string{"pipestance stalled in state " + res.State + " (no job pending, no progress)"}
 	}
 	if res.State != "complete" && res.State != "disabled" {
-		return []string{"pipestance ended in state " + res.State + ": " + res.FatalFq + ": " + firstLine(res.FatalLog)}
+		return []string{"pipestance ended in state " + res.State + ": " + res.FatalFq + ": " + firstLine(res.FatalLog) + logMarker(res.FatalLog)}
 	}
 	out = append(out, matchJobs(ref.Jobs, finishedJobs(res.Jobs), "args")...)
 	if res.TopOuts == nil {
@@ -198,7 +198,7 @@ func CheckExactlyOnce(ref *progen.RefResult, res *Result) []string {
 		return []string{"pipestance stalled in state " + res.State}
 	}
 	if res.State != "complete" && res.State != "disabled" {
-		return []string{"pipestance ended in state " + res.State + ": " + res.FatalFq + ": " + firstLine(res.FatalLog)}
+		return []string{"pipestance ended in state " + res.State + ": " + res.FatalFq + ": " + firstLine(res.FatalLog) + logMarker(res.FatalLog)}
 	}
 	// every submission counts, finished or not
 	out = append(out, matchJobs(ref.Jobs, res.Jobs, "count")...)
@@ -324,4 +324,13 @@ func CheckOrder(ref *progen.RefResult, res *Result) []string {
 		}
 	}
 	return out
+}
+
+
+// logMarker tags messages whose cause is only visible further down the log.
+func logMarker(log string) string {
+	if strings.Contains(log, "circular fork sources") {
+		return " [circular fork sources]"
+	}
+	return ""
 }
